@@ -60,4 +60,11 @@ theorem director_and_handler :
     handlerCases = ["strings.EqualFold(upgrade, \"websocket\")", "accept == \"text/event-stream\"", "default"] := by
   decide
 
+/-- `responseWriter` (the wrapper `Model.C07.RW` transcribes): `WriteHeader` passes every call on to the wrapped
+writer — the call is a top-level statement with nothing in front of it that could skip it — and records the
+code; `Write` hands the bytes on and returns the wrapped writer's count; the handler is served with the wrapper -/
+theorem response_writer_forwards :
+    rwWriteHeaderForwards = true ∧ rwWriteHeaderRecords = true ∧ rwWriteForwards = true ∧
+    serveUsesResponseWriter = true := by decide
+
 end Fabio.Props.C07Facts
